@@ -97,7 +97,26 @@ theorem C05_pass_error_kinds (σ : Net ℝ) (fuel : Nat) (obs : List (NObs ℝ))
       ob.kind.wraps = true ∧ ob.kind.lin fuel (σ.view ob) = .error .fuel) :=
   passFrom_error σ fuel obs s e h
 
+/-- **the design matrix EXISTS and is the Jacobian**: `C05_design_matrix_is_jacobian` without the hypothesis "the pass
+    returned".  From every well-formed index state, for a list none of whose observations throws, there is a fuel
+    from which on the pass returns one and the same result, and every row outside the cut of `bearing_distance` is
+    the row of derivatives (entry 0 in the column of an unknown none of its roles names). -/
+theorem C05_design_matrix_exists_and_is_jacobian (σ : Net ℝ) (obs : List (NObs ℝ)) (s0 : IdxState) (hs0 : s0.WF)
+    (hno : ∀ ob ∈ obs, ¬ Throws σ ob) :
+    ∃ fuel res, passFrom σ fuel obs s0 = .ok res ∧ (∀ fuel', fuel ≤ fuel' → passFrom σ fuel' obs s0 = .ok res) ∧
+      ∀ r ob, obs[r]? = some ob → Regular ob.kind (σ.view ob) →
+        (∀ u, σ.isFree u = true → RowDeriv ob.kind σ ob u (codeMatrix res.rows r (res.idx.get u))) ∧
+        (∀ u, (∀ rc ∈ ob.kind.roles, ob.name rc.1 rc.2 ≠ u) → codeMatrix res.rows r (res.idx.get u) = 0) := by
+  obtain ⟨fuel, res, h⟩ := passFrom_total σ obs hno s0
+  exact ⟨fuel, res, h, fun _ hle => passFrom_mono σ hle obs s0 res h,
+    fun r ob hr hreg => Lin.design_matrix_is_jacobian σ fuel obs s0 hs0 res h r ob hr hreg⟩
+
 /-! ## non-vacuity -/
+
+-- `C05_design_matrix_exists_and_is_jacobian`: the 13-row list from the cleared state; every row is regular
+example : IdxState.init.WF ∧ (∀ ob ∈ all13, ¬ Throws exNet ob) ∧ (∀ ob ∈ all13, Regular ob.kind (exNet.view ob)) ∧
+    all13.length = 13 := ⟨IdxState.wf_init, all13_no_throw, all13_regular, rfl⟩
+
 
 -- a list with all 13 classes that passes (hypothesis of `C05_pass_total_iff` ←, conclusion of →)
 example : all13.map (·.kind) = Kind.all ∧ (∀ ob ∈ all13, ¬ Throws exNet ob) ∧
